@@ -171,7 +171,7 @@ def trace_is_path(facts, method, evs):
     return method in bodies and n in run(bodies[method], {0})
 
 
-METHOD_OF = {"prune": "ingest", "ingest": "ingest", "ingestat": "ingest", "ingest_error": "ingest_error", "ingest_sensitive": "ingest_sensitive",
+METHOD_OF = {"status": "get_queue_status", "prune": "ingest", "ingest": "ingest", "ingestat": "ingest", "ingest_error": "ingest_error", "ingest_sensitive": "ingest_sensitive",
              "digest": "digest", "autophagy": "autophagy", "clearbin": "clear_recycling_bin"}
 
 
@@ -255,7 +255,8 @@ class C13(Prop):
 
         class H(logging.Handler):
             def emit(self, record):
-                prop.records.append(record.funcName)
+                if record.levelno >= logging.WARNING:        # debug / info lines are not accounting, at whatever level
+                    prop.records.append(record.funcName)     # the loggers run
         lg = logging.getLogger(L.__name__)
         lg.handlers = [H()]
         lg.setLevel(logging.WARNING)
@@ -345,8 +346,10 @@ class C13(Prop):
         if r < 0.95:
             base = abs(ret)
             return f"adv {max(0, rng.choice([base - 1, base, base + 1, 1, base // 2, 0, 2 * base]))}"
-        if r < 0.985:
+        if r < 0.98:
             return self._set(rng, ret)
+        if r < 0.99:
+            return "status"
         return "clearbin"
 
     def _set(self, rng, ret):
@@ -436,7 +439,7 @@ class C13(Prop):
         for _ in range(rng.randint(1, 4)):
             nid += 1
             other = rng.choice([k for k in (0, 1, 2) if k != first] + [first])
-            lines.append(f"@{other} " + rng.choice([f"ingest exp {nid} 2", "digest none", "digest 1", "autophagy",
+            lines.append(f"@{other} " + rng.choice([f"ingest exp {nid} 2", "digest none", "digest 1", "autophagy", "status",
                                                        f"ingest_sensitive {nid} 1", f"ingest_error {nid} 2"]))
         return lines
 
@@ -502,7 +505,7 @@ class C13(Prop):
         spaces = [{"name": f"all histories of <= {depth} ops over a 7-op alphabet on {len(cfgs)} configurations",
                    "cases": cases}]
         alpha2 = ["ingestat aware exp {i} 2", "ingest exp {i} 2", "autophagy", "digest none", "@1 autophagy",
-                  "@1 ingest exp {i} 2", "@1 digest none"]
+                  "@1 ingest exp {i} 2", "@1 digest none", "@1 status"]
         c2 = []
         for k in range(1, 4 if tier == "quick" else 5):
             for ops in itertools.product(alpha2, repeat=k):
@@ -516,7 +519,7 @@ class C13(Prop):
                 c2.append({"lines": ["cfg 4 3 3515625 ssss b set"] + [o.format(i=j + 1) for j, o in enumerate(ops)],
                            "note": f"lysosome shared with the context-pruning daemon, depth {k}"})
         spaces.append({"name": "all histories of <= 3 (quick) / 4 (thorough) ops over {aware ingest, ingest, autophagy, "
-                               "digest} x {thread 0, thread 1}, and over {daemon cycle forced / at critical fill, ingest, "
+                               "digest, read-only status} x {thread 0, thread 1}, and over {daemon cycle forced / at critical fill, ingest, "
                                "autophagy, clock advance, digest}", "cases": c2})
         if tier != "quick":
             # every schedule prefix of 2 x 2 operations is too many; exhaust the *burst patterns* instead:
@@ -715,6 +718,17 @@ class C13(Prop):
         if op == "clearbin":
             lys.clear_recycling_bin()
             return "ok"
+        if op == "status":
+            # the read-only entry points: they must come back, leave everything as it is and agree with each other
+            # (get_queue_status divides by max_queue_size: not called while that is 0)
+            st = lys.get_statistics()
+            lys.get_recycled()
+            lys.get_recycled("shared")
+            if lys.max_queue_size != 0:
+                qs = lys.get_queue_status()
+                if qs["size"] != st["queue_size"] or sum(qs["by_type"].values()) != qs["size"]:
+                    return "status-disagrees"
+            return "ok"
         raise KeyError(op)
 
     @staticmethod
@@ -875,7 +889,8 @@ class C13(Prop):
                             snap["raise"] = type(val).__name__
                         snap["client_ingests"] = list(ctx["client_ingests"])
                         facts = getattr(self, "facts", None)
-                        no_call = t[0] == "prune" and t[2] in ("0", "3")      # nothing to flush: the lysosome is not touched
+                        no_call = (t[0] == "prune" and t[2] in ("0", "3")) or (      # nothing to flush: not touched
+                            t[0] == "status" and ctx["lys"].max_queue_size == 0)
                         if facts and facts.get("recognised") and not (
                                 evs == [] if no_call else trace_is_path(facts, METHOD_OF[t[0]], evs)):
                             d += " lock-trace-not-a-path-of-the-extracted-shape[" + ",".join(evs) + "]"
@@ -906,7 +921,7 @@ class C13(Prop):
             return len(t) == 3 and t[1].isdigit() and t[2] in ("0", "1", "2", "3")
         if t[0] == "digest":
             return len(t) == 2 and (t[1] == "none" or isint(t[1]))
-        if t[0] in ("autophagy", "clearbin"):
+        if t[0] in ("autophagy", "clearbin", "status"):
             return len(t) == 1
         if t[0] == "adv":
             return len(t) == 2 and t[1].isdigit()
@@ -1028,7 +1043,7 @@ class C13(Prop):
                 elif t[1] == "ontox":
                     ontox_changed = True
                     ontox = ontox or t[2] == "set"
-            is_call = t[0] in ("prune", "ingest", "ingestat", "ingest_error", "ingest_sensitive", "digest", "autophagy", "conc")
+            is_call = t[0] in ("status", "prune", "ingest", "ingestat", "ingest_error", "ingest_sensitive", "digest", "autophagy", "conc")
             if not is_call:
                 if snap is not None and "bin" in snap:
                     prev_bin = snap["bin"]
@@ -1063,6 +1078,9 @@ class C13(Prop):
                 if not tolerated:
                     out.append(Violation("every_call_returns", f"{t[0]} returns normally", o.split(" | ")[0], idx))
                     break
+            if o.startswith("status-disagrees"):
+                out.append(Violation("queue_size_reported", "get_queue_status agrees with get_statistics and with itself",
+                                     "queue_size / by_type disagree", idx))
             if snap is None:
                 continue
             # 2. queue bound
